@@ -409,13 +409,53 @@ Qed.
 Lemma expression_good : forall ts, good (expression ts) ts.
 Proof. intros ts. unfold expression. apply expression_d_good. lia. Qed.
 
+Lemma arguments_top_good : forall r, goodle (arguments (expression_d (S (length r))) r) r.
+Proof.
+  intros r. apply (arguments_good (expression_d (S (length r))) (S (length r))); [|lia].
+  intros ts L. apply expression_d_good. lia.
+Qed.
+
+Lemma statement_good : forall ts, good (statement ts) ts.
+Proof.
+  intros ts. unfold statement.
+  assert (E : good (bind (expression ts) (fun e rest => Ok (StExpr e) rest)) ts).
+  { pose proof (expression_good ts) as G. apply good_bind; [apply good_goodle; exact G|].
+    intros e rest Ee. destruct G as [_ G]. specialize (G e rest Ee). apply good_ok. exact G. }
+  destruct ts as [|t r]; [exact E|]. destruct t; try exact E.
+  destruct k; try exact E.
+  - (* let *)
+    unfold parse_variable.
+    destruct r as [|t1 r1]; [apply good_err|]. destruct t1; try apply good_err.
+    destruct r1 as [|t2 r2]; [apply good_err|]. destruct t2; try apply good_err; try apply good_uns.
+    pose proof (skip_le r2). pose proof (expression_good (skip_empty_lines r2)) as G.
+    apply good_bind; [apply good_goodle; eapply good_weaken; [exact G|simpl; lia]|].
+    intros e rest Ee. destruct G as [_ G]. specialize (G e rest Ee). apply good_ok. simpl. lia.
+  - (* print *)
+    simpl. destruct r as [|t1 r1]; [apply good_err|]. destruct t1; try apply good_err.
+    pose proof (arguments_top_good r1) as G.
+    apply good_bind; [eapply goodle_weaken; [exact G|simpl; lia]|].
+    intros a rest Ea. destruct G as [_ G]. specialize (G a rest Ea). apply good_ok. simpl. lia.
+  - simpl. destruct r as [|t1 r1]; [apply good_err|]. destruct t1; try apply good_err.
+    pose proof (arguments_top_good r1) as G.
+    apply good_bind; [eapply goodle_weaken; [exact G|simpl; lia]|].
+    intros a rest Ea. destruct G as [_ G]. specialize (G a rest Ea). apply good_ok. simpl. lia.
+  - simpl. destruct r as [|t1 r1]; [apply good_err|]. destruct t1; try apply good_err.
+    pose proof (arguments_top_good r1) as G.
+    apply good_bind; [eapply goodle_weaken; [exact G|simpl; lia]|].
+    intros a rest Ea. destruct G as [_ G]. specialize (G a rest Ea). apply good_ok. simpl. lia.
+  - simpl. destruct r as [|t1 r1]; [apply good_err|]. destruct t1; try apply good_err.
+    pose proof (arguments_top_good r1) as G.
+    apply good_bind; [eapply goodle_weaken; [exact G|simpl; lia]|].
+    intros a rest Ea. destruct G as [_ G]. specialize (G a rest Ea). apply good_ok. simpl. lia.
+Qed.
+
 Lemma parse_loop_fuel : forall n acc ts, length ts < n -> parse_loop n acc ts <> OutOfFuel.
 Proof.
   induction n; intros acc ts L; [lia|]. simpl.
   destruct ts as [|t r]; [discriminate|].
   destruct (starts_other_statement (t :: r)); [discriminate|].
-  pose proof (expression_good (t :: r)) as [G1 G2].
-  destruct (expression (t :: r)) as [e rest| | |] eqn:E; try discriminate; [|congruence].
+  pose proof (statement_good (t :: r)) as [G1 G2].
+  destruct (statement (t :: r)) as [e rest| | |] eqn:E; try discriminate; [|congruence].
   specialize (G2 e rest eq_refl).
   destruct rest as [|t2 r2]; [discriminate|].
   destruct t2; try discriminate.
